@@ -615,13 +615,16 @@ Proof.
     + intros T H; inversion H; subst st'; exact T.
     + discriminate.
   - unfold step_worker. destruct (nth_error (c_workers st) i) as [p|] eqn:E; [|discriminate].
-    intros T. destruct p as [retry| | | |].
-    + destruct (s i retry); [| destruct (RetryCount <=? retry) |]; intros H; inversion H; subst st'; cbn;
-        match goal with |- _ + load (upd _ _ ?q) = _ => pose proof (load_upd _ _ _ q E) end; cbn in *; lia.
+    intros T. assert (Bf : busy (fail_phase v) = 1) by (unfold fail_phase; destruct (v_report_before_commit v); reflexivity).
+    destruct p as [retry| | | | | |].
+    + destruct (s i retry); [| destruct (RetryCount <=? retry) |]; intros H; inversion H; subst st'; cbn [c_tokens c_workers set_worker];
+        match goal with |- _ + load (upd _ _ ?q) = _ => pose proof (load_upd _ _ _ q E) end; cbn [busy] in *; lia.
     + intros H; inversion H; subst st'; cbn. pose proof (load_upd _ _ _ WCommit E). cbn in *; lia.
     + intros H; inversion H; subst st'; cbn. pose proof (load_upd _ _ _ WRelease E). cbn in *; lia.
     + intros H; inversion H; subst st'; cbn. pose proof (load_upd _ _ _ WFinished E). cbn in *; lia.
     + discriminate.
+    + intros H; inversion H; subst st'; cbn. pose proof (load_upd _ _ _ WLateReport E). cbn in *; lia.
+    + intros H; inversion H; subst st'; cbn. pose proof (load_upd _ _ _ WRelease E). cbn in *; lia.
 Qed.
 
 Lemma run_tinv v level n s sched : forall st, tinv level st -> tinv level (run v n s st sched).
@@ -633,7 +636,7 @@ Qed.
 Lemma worker_enabled v s st i p :
   nth_error (c_workers st) i = Some p -> p <> WFinished -> exists st', step_worker v s st i = Some st'.
 Proof.
-  intros H Hp. unfold step_worker. rewrite H. destruct p as [retry| | | |]; try (eexists; reflexivity).
+  intros H Hp. unfold step_worker. rewrite H. destruct p as [retry| | | | | |]; try (eexists; reflexivity).
   - destruct (s i retry); [| destruct (RetryCount <=? retry) |]; eexists; reflexivity.
   - congruence.
 Qed.
@@ -643,6 +646,7 @@ Definition wmeasure (p : wphase) : nat :=
   match p with
   | WRun k => 4 + (S RetryCount - k)
   | WReport => 3 | WCommit => 2 | WRelease => 1 | WFinished => 0
+  | WCommitF => 3 | WLateReport => 2
   end.
 Definition wmax : nat := 4 + S RetryCount.
 Definition dmeasure (n : nat) (d : dphase) : nat :=
@@ -686,7 +690,8 @@ Proof.
     + intros H; inversion H; subst; cbn. lia.
     + discriminate.
   - unfold step_worker. destruct (nth_error (c_workers st) i) as [p|] eqn:E; [|discriminate].
-    destruct p as [retry| | | |].
+    change (fail_phase current) with WReport.
+    destruct p as [retry| | | | | |].
     + destruct (s i retry).
       * intros H; inversion H; subst; cbn [c_disp c_workers].
         pose proof (wsum_upd _ _ _ WCommit E). cbn in *. lia.
@@ -703,6 +708,10 @@ Proof.
     + intros H; inversion H; subst; cbn [c_disp c_workers].
       pose proof (wsum_upd _ _ _ WFinished E). cbn in *. lia.
     + discriminate.
+    + intros H; inversion H; subst; cbn [c_disp c_workers set_worker].
+      pose proof (wsum_upd _ _ _ WLateReport E). cbn in *. lia.
+    + intros H; inversion H; subst; cbn [c_disp c_workers].
+      pose proof (wsum_upd _ _ _ WRelease E). cbn in *. lia.
 Qed.
 
 Lemma some_step_enabled level n s st :
@@ -780,9 +789,12 @@ Qed.
 (* ------------------------------------------------------------------ *)
 (* the code before commit b7219de, refuted                              *)
 
-Definition prefix_both : variant := {| v_report_first := false; v_return_latch := false |}.
-Definition prefix_report_only : variant := {| v_report_first := false; v_return_latch := true |}.
-Definition prefix_return_only : variant := {| v_report_first := true; v_return_latch := false |}.
+Definition prefix_both : variant :=
+  {| v_report_first := false; v_return_latch := false; v_report_before_commit := true |}.
+Definition prefix_report_only : variant :=
+  {| v_report_first := false; v_return_latch := true; v_report_before_commit := true |}.
+Definition prefix_return_only : variant :=
+  {| v_report_first := true; v_return_latch := false; v_report_before_commit := true |}.
 
 (* a block of two transactions: the first succeeds at once, the second fails fatally *)
 Definition w_txs : list tx := [ {| tx_skippable := false |}; {| tx_skippable := false |} ].
@@ -810,6 +822,38 @@ Proof. exists 2, w_txs, w_script, w_sched. split; [exact w_fails|]. vm_compute. 
 
 Lemma prefix_return_only_refuted : dropped prefix_return_only.
 Proof. exists 2, w_txs, w_script, w_sched. split; [exact w_fails|]. vm_compute. reflexivity. Qed.
+
+(* ------------------------------------------------------------------ *)
+(* The order Report-before-Commit is essential: a worker that commits first
+   and reports afterwards (everything else as in the current code) lets the
+   dispatcher fall through Realize() and read an empty latch.              *)
+Definition commit_before_report : variant :=
+  {| v_report_first := true; v_return_latch := true; v_report_before_commit := false |}.
+
+(* the failing worker 1 commits; the dispatcher finishes Realize and returns
+   BEFORE worker 1 reaches ec.Report *)
+Definition w_sched_late : list actor :=
+  [ADisp; ADisp; ADisp; ADisp;
+   AWorker 0; AWorker 0; AWorker 0;
+   AWorker 1 (* attempt fails *); AWorker 1 (* wvs.Commit() *);
+   ADisp; ADisp; ADisp; ADisp; ADisp (* return ec.Error() = nil *);
+   AWorker 1 (* ec.Report, too late *); AWorker 1].
+
+Lemma commit_before_report_refuted : dropped commit_before_report.
+Proof. exists 2, w_txs, w_script, w_sched_late. split; [exact w_fails|]. vm_compute. reflexivity. Qed.
+
+(* under the swapped order the outcome depends on the schedule: the same block
+   is an error when the worker reports in time *)
+Example commit_before_report_schedule_dependent :
+  exec_conc_gen commit_before_report 2 w_txs w_script w_sched = Err.
+Proof. vm_compute. reflexivity. Qed.
+
+(* the current code on the late schedule: the worker reports before it commits,
+   the dispatcher cannot get past Realize earlier, the block fails *)
+Example current_on_late_schedule_blocked : exec_conc 2 w_txs w_script w_sched_late = Unfinished.
+Proof. vm_compute. reflexivity. Qed.
+Example current_on_late_schedule : exec_conc 2 w_txs w_script (w_sched_late ++ [ADisp; ADisp; ADisp]) = Err.
+Proof. vm_compute. reflexivity. Qed.
 
 (* the same block and schedule under the current code *)
 Example current_on_witness : exec_conc 2 w_txs w_script w_sched = Err.
